@@ -8,10 +8,10 @@ package main
 // value; two computations agree when their forms are identical.
 
 import (
-	"go/types"
 	"fmt"
 	"go/constant"
 	"go/token"
+	"go/types"
 	"sort"
 	"strings"
 
@@ -156,8 +156,8 @@ type Polyizer struct {
 	Inline bool
 	// NoInline switches that off (it is the default)
 	NoInline bool
-	env    map[ssa.Value]Poly
-	depth  int
+	env      map[ssa.Value]Poly
+	depth    int
 	// tMax: while a loop's induction form is in use and its trip count is a
 	// constant, the largest value of the iteration number T (-1: unknown)
 	tMax    int64
@@ -489,7 +489,6 @@ func (z *Polyizer) defaultAtom(v ssa.Value) string {
 	}
 	return "v:" + v.Name()
 }
-
 
 // ---- rounding in canonical form ----
 //
